@@ -54,7 +54,7 @@ def root_spellings(rng, model, k=3):
     for _ in range(k * 3):
         name, o = rng.choice(refs)
         short = name.split("/", 2)[2] if name.count("/") >= 2 and name.startswith(("refs/heads/", "refs/tags/")) else name
-        kind = rng.choice(["ref", "short", "oid", "abbrev", "ancestor", "path", "peeltree", "anyoid", "peel"])
+        kind = rng.choice(["ref", "short", "oid", "abbrev", "ancestor", "path", "peeltree", "anyoid", "peel", "colon", "colon"])
         if kind == "ref":
             out.append((name, o))
         elif kind == "short":
@@ -80,6 +80,10 @@ def root_spellings(rng, model, k=3):
             while c.kind == "tag":
                 c = c.target
             out.append(("%s^{%s}" % (name, c.kind), c))
+        elif kind == "colon":
+            t = peel_to_tree(o)
+            if t is not None and o.kind != "tree":
+                out.append((rng.choice([name, short, name + "~0"]) + ":", t))
         elif kind == "peeltree":
             t = peel_to_tree(o)
             if t is not None:
